@@ -457,7 +457,7 @@ package runtime
 // hard budget than the parent has left, soft <= hard, flags only grow, the
 // child starts at zero, the parent is saved unchanged.
 //@ func (*runtimeContextManager).PushContext
-//@   prop C07
+//@   prop C07 C08
 //@   arith bv
 //@   requires m != nil
 //@   requires m.status == StatusLive && usedOK(m) && trackOK(m)
@@ -511,3 +511,37 @@ package runtime
 //@   ensures m != nil && old(m.parent) != nil ==> asType(result, *runtimeContextManager).usedResources == old(m.usedResources) && asType(result, *runtimeContextManager).hardLimits == old(m.hardLimits) && asType(result, *runtimeContextManager).softLimits == old(m.softLimits) && asType(result, *runtimeContextManager).requiredFlags == old(m.requiredFlags)
 //@   ensures m != nil && old(m.parent) != nil ==> asType(result, *runtimeContextManager).status == ite(old(m.status) == StatusLive, StatusDone, old(m.status))
 //@   ensures m != nil && old(m.parent) != nil && m.status == StatusLive && old(m.parent.status) == StatusLive ==> (m.trackCpu ==> !spec.atLimit(m.usedResources.Cpu, m.hardLimits.Cpu)) && (m.trackMem ==> !spec.atLimit(m.usedResources.Memory, m.hardLimits.Memory))
+
+// ---------------------------------------------------------------------------
+// C08 / C04: the gate through which every Go-implemented function is entered
+// ---------------------------------------------------------------------------
+
+// What every Go function may rely on when its body is entered (and what the
+// single call site c.f(t, c) in GoCont.RunInThread must therefore establish):
+// the current context requires no flag the function has not declared, the Go
+// call depth is bounded, and the argument slots are consistent.
+//@ func functype:GoFunctionFunc
+//@   trusted
+//@   requires arg0 != nil && arg1 != nil && arg1.GoFunction != nil
+//@   requires arg0.requiredFlags &^ arg1.safetyFlags == 0
+//@   requires arg0.goFunctionCallDepth <= maxGoFunctionCallDepth
+//@   modifies everything()
+//@   exits any
+
+//@ func (*GoCont).RunInThread
+//@   prop C08 C04
+//@   arith bv
+//@   requires c != nil && t != nil && t.Runtime != nil && c.GoFunction != nil
+//@   modifies everything()
+//@   exits any
+//@   ensures old(t.requiredFlags) &^ old(c.safetyFlags) != 0 ==> err != nil && next == nil
+
+// Declaring compliance only ever adds defined flags.
+//@ func (*GoFunction).SolemnlyDeclareCompliance
+//@   prop C08
+//@   arith bv
+//@   requires f != nil
+//@   modifies f.safetyFlags
+//@   exits string when flags >= complyflagsLimit
+//@   exits_ensures f.safetyFlags == old(f.safetyFlags)
+//@   ensures f.safetyFlags == old(f.safetyFlags) | flags && flags < complyflagsLimit
